@@ -532,3 +532,80 @@ Section LiteralFacts.
     destruct l; cbv [lit_match lit_strict]; try (unfold py_eq; rewrite Hn; apply implb_same); apply implb_same.
   Qed.
 End LiteralFacts.
+
+(* ------------------------------------------------------------------ *)
+(* nested unions                                                        *)
+
+Section UtyInd.
+  Variable P : uty -> Prop.
+  Hypothesis HS : forall k, P (TS k).
+  Hypothesis HL : forall e f, P (TLeaf e f).
+  Hypothesis HU : forall e l, Forall P l -> P (TU e l).
+  Fixpoint uty_ind' (t: uty) : P t :=
+    match t with
+    | TS k => HS k
+    | TLeaf e f => HL e f
+    | TU e l => HU e l ((fix go (l: list uty) : Forall P l :=
+                           match l with
+                           | [] => Forall_nil _
+                           | x :: r => Forall_cons x (uty_ind' x) (go r) end) l)
+    end.
+End UtyInd.
+
+Section NestedFacts.
+  Variable co : skind -> uv -> option uv.
+
+  Lemma tdec_TU : forall e l, tdec co (TU e l) = union_dec co (map (tmember co) l).
+  Proof. reflexivity. Qed.
+
+  Lemma tref_TU : forall e l, tref co (TU e l) = ref_union co (map (rmember co) l).
+  Proof. reflexivity. Qed.
+
+  (* hereditary coherence: in every union inside t, members with one expression id agree on d *)
+  Fixpoint tcoh (d: uv) (t: uty) : Prop :=
+    match t with
+    | TU _ l => coherent (map (tmember co) l) d /\ fold_right (fun t' P => tcoh d t' /\ P) True l
+    | _ => True end.
+
+  Lemma scalar_member_agree : forall d ms ms', Forall2 (magree co d) ms ms' ->
+    forall k, scalar_member k ms = scalar_member k ms'.
+  Proof.
+    intros d ms ms' H k; induction H as [|a b r r' [Hk _] _ IH]; [reflexivity|].
+    unfold scalar_member in *; simpl. rewrite IH. f_equal.
+    destruct a, b; simpl in Hk; try discriminate; try reflexivity. inversion Hk; reflexivity.
+  Qed.
+
+  Lemma ref_union_ext : forall d ms ms', Forall2 (magree co d) ms ms' ->
+    ref_union co ms d = ref_union co ms' d.
+  Proof.
+    intros d ms ms' H. unfold ref_union, exact_hit.
+    assert (E: (match kind_of d with Some k => scalar_member k ms | None => false end) =
+               (match kind_of d with Some k => scalar_member k ms' | None => false end)).
+    { destruct (kind_of d); [apply (scalar_member_agree d); assumption | reflexivity]. }
+    rewrite E.
+    rewrite (first_some_Forall2 (ref_nonscalar d) (ref_nonscalar d) (magree co d)) with (l' := ms');
+      [| intros a b [Hk [H1 _]]; destruct a, b; simpl in *; try discriminate; auto | assumption].
+    rewrite (first_some_Forall2 (ref_scalar co d) (ref_scalar co d) (magree co d)) with (l' := ms');
+      [reflexivity | | assumption].
+    intros a b [Hk _]; destruct a, b; simpl in *; try discriminate; [inversion Hk|]; reflexivity.
+  Qed.
+
+  Theorem nested_union_partial : forall t d, tcoh d t -> tsafe co d t = true ->
+    tdec co t d = tref co t d.
+  Proof.
+    induction t as [k|e f|e l IH] using uty_ind'; intros d Hc Hs.
+    - (* a scalar type on its own: the None type decodes to None whatever the input *)
+      destruct k; try reflexivity. simpl in *. rewrite Hs. reflexivity.
+    - reflexivity.
+    - rewrite tdec_TU, tref_TU. simpl in Hc, Hs. destruct Hc as [Hc Hcl].
+      apply andb_true_iff in Hs; destruct Hs as [Hs Hsl]. apply andb_true_iff in Hs; destruct Hs as [Hn Hsh].
+      rewrite (union_decode_partial co _ d Hc Hn Hsh).
+      apply ref_union_ext.
+      clear Hc Hn Hsh. induction l as [|x r IHr]; simpl; [constructor|].
+      inversion IH as [|x' r' Hx Hr]; subst. simpl in Hcl, Hsl. destruct Hcl as [Hcx Hcr].
+      apply andb_true_iff in Hsl; destruct Hsl as [Hsx Hsr].
+      constructor; [|apply IHr; assumption].
+      destruct x as [k|e' f|e' l']; unfold magree; simpl; repeat split; try reflexivity.
+      apply (Hx d Hcx Hsx).
+  Qed.
+End NestedFacts.
